@@ -7515,11 +7515,13 @@ tmcg_openpgp_armor_t CallasDonnerhackeFinneyShawThayerRFC4880::ArmorDecode
 		std::cerr << "ERROR: armor separator not found" << std::endl;
 		return TMCG_OPENPGP_ARMOR_UNKNOWN; // separator (blank line) not found
 	}
+	bool chksum_found = true;
 	cpos = in.find("\n=", spos); // TODO: use regex for reliable detection
 	if (cpos == in.npos)
 	{
 		std::cerr << "WARNING: no armor checksum found" << std::endl;
 		cpos = epos;
+		chksum_found = false;
 	}
 	if (in.find("-----", spos + 33) != epos)
 	{
@@ -7532,8 +7534,13 @@ tmcg_openpgp_armor_t CallasDonnerhackeFinneyShawThayerRFC4880::ArmorDecode
 		std::string data = in.substr(rpos + 2, cpos - rpos - 2);
 		tmcg_openpgp_octets_t decoded_data;
 		Radix64Decode(data, decoded_data);
-		if ((cpos + 6) < epos)
+		if (chksum_found)
 		{
+			if ((cpos + 6) > epos)
+			{
+				std::cerr << "ERROR: truncated armor checksum" << std::endl;
+				return TMCG_OPENPGP_ARMOR_UNKNOWN; // checksum error
+			}
 			CRC24Encode(decoded_data, chksum);
 			if (chksum != in.substr(cpos + 1, 5))
 			{
